@@ -10,9 +10,14 @@ Optional fields (absent = the plain spelling), all about HOW the caller says the
          clone 0|1 (use q.clone() of the loaded queue), shadow same|diff (a second queue fed with the same source
          objects and driven between the ops), meddle 0|1 (the caller scribbles over everything it passed in or got
          back), nrep np64|np32|kw|posdec|mix (pop_buffer argument), trep np|kw (pause/resume argument), enc (array
-         value encoding base for long waveforms)
+         value encoding base for long waveforms), share scratch (the caller builds its stimuli in ONE scratch object per
+         kind - an ndarray re-filled in place, a FixedWaveform whose array is re-bound, an enveloped tone whose carrier
+         frequency is stepped - and appends that same object again and again: the queue must hold a snapshot per append),
+         reent [[K, 'p'|'pt'], ...] (the 'added' consumer calls q.pause() / q.pause(info['t0']) from inside the K-th
+         notification, i.e. while pop_buffer is being served; C04)
   stim:  trep np64|np32|float (trial count), dform none|int|np|gen|list|tuple|ndarray (delays argument),
-         meta 0|1 (metadata dict), dtype f4|i4|i8|i2|strided, xdur / declare (explicit duration=), late 0|1
+         meta 0|1 (metadata dict), dtype f4|i4|i8|i2|strided, xdur / declare (explicit duration=), late 0|1,
+         same_as j (the very same source object as stimulus j < i, unchanged, appended again under its own key)
   ops:   ['append', i] (stimulus i, marked late, is appended at that point), ['popnd', n] = pop_buffer(n, decrement=False)
 Positions m are sample positions relative to the queue start; the adapter passes
 t = t0 + m/fs.  Delays are in sample units (possibly fractional); the adapter passes d/fs and the
@@ -193,6 +198,7 @@ class Trace:
         self.added2 = []       # what a second 'added' consumer saw: (key, k)
         self.removed = []      # uids in notification order
         self.n_empty = 0       # number of 'empty' notifications so far
+        self.reent = []        # re-entrant calls made from inside an 'added' notification (case['reent'])
         self.recording = True  # False while a bystander queue is being driven
 
 
@@ -203,8 +209,21 @@ def _decode(out, c0, tr, case, live):
     stims = case['stims']
     enc = case.get('enc', ENC)
     out = np.asarray(out)
-    if len(out) > 20000 and not any(st['src'] == 'cos2' for st in stims):
+    alias = [_alias(stims, i) for i in range(len(stims))]
+    has_alias = any(a != i for i, a in enumerate(alias))
+    if has_alias:
+        stims = [eff_stim(stims, i) for i in range(len(stims))]
+    if len(out) > 20000 and not has_alias and not any(st['src'] == 'cos2' for st in stims):
         return _decode_fast(out, tr, stims, enc)
+
+    def owner(p, kk):
+        # two stimuli queued from the very same object carry the same values: the sample belongs to the one whose
+        # notified trial covers the position
+        if has_alias:
+            for key, k in live:
+                if alias[key] == kk and k <= p < k + tr.lens[key]:
+                    return key
+        return kk
     cells = []
     cos = [i for i, st in enumerate(stims) if st['src'] == 'cos2']
     prev = None
@@ -218,7 +237,7 @@ def _decode(out, c0, tr, case, live):
         jj = int(v % enc) - 1
         if v == int(v) and 0 <= kk < len(stims) and stims[kk]['src'] in ('arr', 'fixed') \
                 and 0 <= jj < tr.lens[kk]:
-            cells.append(('W', kk, jj))
+            cells.append(('W', owner(c0 + i, kk), jj))
             prev = None
             continue
         p = c0 + i
@@ -397,15 +416,76 @@ def _meta_value(st, i):
     return {'stim': i, 'tag': f'm{i}', 'levels': [i, i + 1]} if st.get('meta') else None
 
 
-def _load(case, q, fs, srcs, bound, keys=None, upto=None):
+def _alias(stims, i):
+    """The stimulus whose values stimulus i carries (same_as chains resolved)."""
+    seen = 0
+    while stims[i].get('same_as') is not None and seen < len(stims):
+        i, seen = stims[i]['same_as'], seen + 1
+    return i
+
+
+_OWN_FIELDS = ('trials', 'delays', 'late', 'trep', 'dform', 'meta', 'declare', 'xdur', 'same_as')
+
+
+def eff_stim(stims, i):
+    """Stimulus i with the source fields (src, len, frac, dtype) of the stimulus whose object it re-uses."""
+    a = _alias(stims, i)
+    if a == i:
+        return stims[i]
+    st = {k: v for k, v in stims[a].items() if k not in _OWN_FIELDS}
+    st.update({k: v for k, v in stims[i].items() if k in _OWN_FIELDS})
+    return st
+
+
+def _present(case, srcs, i, pool):
+    """The object the caller hands to append() for stimulus i.  Plain cases: the stimulus' own object.  case['share']:
+    one scratch object per kind, re-filled / re-parametrised with stimulus i's content just before the call (what a
+    caller does that synthesises its stimuli into a work buffer, or steps the level / frequency attribute of one
+    factory in a loop).  st['same_as']: the unchanged object of an earlier stimulus."""
+    src = srcs[i][0]
+    st = case['stims'][i]
+    if st.get('same_as') is not None:
+        return srcs[_alias(case['stims'], i)][0]
+    if not case.get('share'):
+        return src
+    if isinstance(src, np.ndarray):
+        if not src.flags.c_contiguous:
+            return src
+        k = ('arr', src.shape, src.dtype.str)
+        if k not in pool:
+            pool[k] = np.empty_like(src)
+        pool[k][...] = src                      # the scratch array, re-filled in place
+        return pool[k]
+    wf = getattr(src, 'waveform', None)
+    if isinstance(wf, np.ndarray):              # one FixedWaveform factory, its array re-bound before each append
+        if 'fixed' not in pool:
+            pool['fixed'] = copy.copy(src)
+        pool['fixed'].waveform = wf
+        pool['fixed'].reset()
+        return pool['fixed']
+    inner = getattr(src, 'input_factory', None)
+    if inner is not None and hasattr(inner, 'frequency'):
+        # one enveloped-tone factory per envelope shape; the carrier frequency attribute is stepped
+        k = ('cos2', int(src.n_samples()), repr(src.duration), repr(src.rise_time))
+        if k not in pool:
+            pool[k] = copy.deepcopy(src)
+        pool[k].input_factory.frequency = inner.frequency
+        return pool[k]
+    return src
+
+
+def _load(case, q, fs, srcs, bound, keys=None, upto=None, pool=None):
     """append / extend the stimuli that are present from the start; returns their keys."""
     out = []
     pending = []
+    pool = {} if pool is None else pool
     build = case.get('build')      # how the caller fills the queue: append() each, extend() all, or a mixture
+    if case.get('share') and build != 'pos':
+        build = None               # a scratch object is re-filled between append() calls (extend() takes all at once)
     for i, st in enumerate(case['stims']):
         if st.get('late'):
             continue
-        src, declared = srcs[i]
+        src, declared = _present(case, srcs, i, pool), srcs[i][1]
         T, delays, meta = _trials_value(st), _delays_value(st, fs, bound), _meta_value(st, i)
         if build in ('extend', 'extend-bcast') or (build == 'mixed' and i > 0):
             pending.append((src, T, delays, declared, meta))
@@ -442,9 +522,9 @@ def _load(case, q, fs, srcs, bound, keys=None, upto=None):
     return out
 
 
-def _append_one(case, q, fs, srcs, i, bound):
+def _append_one(case, q, fs, srcs, i, bound, pool=None):
     st = case['stims'][i]
-    src, declared = srcs[i]
+    src, declared = _present(case, srcs, i, {} if pool is None else pool), srcs[i][1]
     return q.append(src, _trials_value(st), delays=_delays_value(st, fs, bound), duration=declared,
                     metadata=_meta_value(st, i))
 
@@ -471,6 +551,7 @@ def _drive(case, q, tr, fs, t0, rewire=lambda q: None):
         q.set_t0(t0)
     keys = []
     infos = []
+    reent = {int(e[0]): e[1] for e in (case.get('reent') or [])}
     metas = [_meta_value(st, i) for i, st in enumerate(case['stims'])]
     declared_s = {}
 
@@ -481,6 +562,23 @@ def _drive(case, q, tr, fs, t0, rewire=lambda q: None):
         infos.append(info)
         ok = info['metadata'] == metas[key]
         tr.added.append((key, k, dur_grid(info['duration'], fs), ongrid, bool(ok)))
+        how = reent.get(len(tr.added) - 1)
+        if how:
+            # the consumer of the notification holds the queue right now, while pop_buffer is being served
+            ev = {'K': len(tr.added) - 1, 'how': how, 'pos': k, 'key': key, 'status': 'raised', 'rm': [],
+                  'rem0': [int(q.remaining_trials(x)) for x in keys], 'ts0': int(round(q.get_ts() * fs))}
+            tr.reent.append(ev)
+            nrm = len(tr.removed)
+            try:
+                if how == 'pt':
+                    q.pause(info['t0'])
+                else:
+                    q.pause()
+                ev['status'] = 'ok'
+            finally:
+                ev['rm'] = tr.removed[nrm:]
+                ev['rem1'] = [int(q.remaining_trials(x)) for x in keys]
+                ev['ts1'] = int(round(q.get_ts() * fs))
 
     def on_added2(info):
         tr.added2.append((keys.index(info['key']), int(round((info['t0'] - t0) * fs))))
@@ -494,8 +592,9 @@ def _drive(case, q, tr, fs, t0, rewire=lambda q: None):
 
     bound = _n_presentations_bound(case)
     srcs = []
-    for i, st in enumerate(case['stims']):
-        src, n, dur, ref = make_source(st, i, fs, case.get('enc', ENC))
+    for i in range(len(case['stims'])):
+        st = eff_stim(case['stims'], i)
+        src, n, dur, ref = make_source(st, _alias(case['stims'], i), fs, case.get('enc', ENC))
         tr.lens.append(n)
         tr.durs.append(dur)
         tr.refs.append(ref)
@@ -507,7 +606,8 @@ def _drive(case, q, tr, fs, t0, rewire=lambda q: None):
             tr.durs[-1] = dur
         declared = dur / fs if (st.get('xdur') or st.get('declare')) else None
         srcs.append((src, declared))
-    keys.extend(_load(case, q, fs, srcs, bound))
+    pool = {}                  # the caller's scratch objects (case['share'])
+    keys.extend(_load(case, q, fs, srcs, bound, pool=pool))
     for i, st in enumerate(case['stims']):
         if not st.get('late'):
             tr.lines.append(f'ok {i}')
@@ -519,7 +619,7 @@ def _drive(case, q, tr, fs, t0, rewire=lambda q: None):
         shadow = make_queue(case, variant='diff' if case['shadow'] == 'diff' else None)
         st0 = t0 + (1.5 if case['shadow'] == 'diff' else 0)
         shadow.set_t0(st0)
-        _load(case, shadow, fs, srcs, bound)
+        _load(case, shadow, fs, srcs, bound, pool=pool)
         tr.recording = True
     if case.get('clone'):
         # the caller works with a clone of the loaded queue; the original is used too
@@ -555,7 +655,7 @@ def _drive(case, q, tr, fs, t0, rewire=lambda q: None):
             tr.steps.append({'op': op, 'status': 'dead'})
             continue
         if op[0] == 'append':
-            keys.append(_append_one(case, q, fs, srcs, op[1], bound))
+            keys.append(_append_one(case, q, fs, srcs, op[1], bound, pool))
             if case.get('meddle'):
                 _scribble_sources(case, srcs, only=op[1])
             tr.lines.append(f'ok {op[1]}')
@@ -575,7 +675,7 @@ def _drive(case, q, tr, fs, t0, rewire=lambda q: None):
                 shadow = None
             np.random.set_state(g)
             tr.recording = True
-        na, nr, ne = len(tr.added), len(tr.removed), tr.n_empty
+        na, nr, ne, nre = len(tr.added), len(tr.removed), tr.n_empty, len(tr.reent)
         c0 = int(round(q.get_ts() * fs))
         out = np.zeros(0)
         status = 'ok'
@@ -621,12 +721,12 @@ def _drive(case, q, tr, fs, t0, rewire=lambda q: None):
         if status == 'err HANG':
             dead = True
             tr.lines.append(status)
-            tr.steps.append({'op': op, 'status': status})
+            tr.steps.append({'op': op, 'status': status, 're': tr.reent[nre:]})
             continue
         if status != 'ok' and op[0] in ('pop', 'popnd') and op[1] > 0:
             dead = True
             tr.lines.append(status)
-            tr.steps.append({'op': op, 'status': status})
+            tr.steps.append({'op': op, 'status': status, 're': tr.reent[nre:]})
             continue
         removed_set = set(tr.removed)
         live = [(a[0], a[1]) for u, a in reversed(list(enumerate(tr.added)))
@@ -656,7 +756,7 @@ def _drive(case, q, tr, fs, t0, rewire=lambda q: None):
             'ct': int(q.count_trials()), 'cr': int(q.count_requested_trials()),
             'n_empty': tr.n_empty - ne, 'aliased': bool(aliased),
             'reqs': [int(q.get_info(k)['requested_trials']) for k in keys],
-            'raw_nonzero_outside': None,
+            'raw_nonzero_outside': None, 're': tr.reent[nre:],
         }
         tr.steps.append(step)
         adds = ','.join(f"{a[0]}@{a[1]}{'' if a[3] else '!offgrid'}{'' if a[4] else '!payload'}+{a[2]}"
@@ -673,7 +773,8 @@ def _drive(case, q, tr, fs, t0, rewire=lambda q: None):
         tr.lines.append(
             f"{status} out={rle(cells)}{'!aliased' if aliased else ''} add={adds} rm={_lst(step['rm'])} "
             f"ts={ts}{'' if step['ts_exact'] else '!inexact'} empty={int(step['empty'])}{note} "
-            f"rem={_lst(step['rem'])} ct={step['ct']} cr={step['cr']}{rq}")
+            f"rem={_lst(step['rem'])} ct={step['ct']} cr={step['cr']}{rq}"
+            + ''.join(f" re={e['K']}@{e['pos']}:{e['how']}" for e in step['re']))
 
 
 # --------------------------------------------------------------------------
@@ -691,7 +792,7 @@ def model_lines(case, use_tick=False):
     lines = [f"new {case['policy']} {int(case.get('keep', 1))} {int(case.get('gsize', 0))} {draws} {perms}"]
 
     def append_line(i):
-        st = case['stims'][i]
+        st = eff_stim(case['stims'], i)
         _, n, dur, ref = make_source(st, i, fs, case.get('enc', ENC))
         zs = [int(j) for j in np.flatnonzero(np.asarray(ref) == 0)]
         kind = 'arr' if st['src'] == 'arr' else 'gen'
@@ -717,6 +818,84 @@ def model_lines(case, use_tick=False):
 def impl_lines(case):
     tr = run_case(case)
     return ['ok'] + list(tr.lines)
+
+
+# --------------------------------------------------------------------------
+# re-entrant pause (case['reent']): the equivalent history without re-entrancy
+# --------------------------------------------------------------------------
+
+def reentrant_split(case):
+    """The re-entrant history R = case told without re-entrancy, as far as that is possible.
+
+    q.pause(info['t0']) called from inside the 'added' notification of a trial that starts at sample p, during
+    pop_buffer(n) entered at clock c, is - on the unchanged library, bit for bit in output, notifications, counters and
+    clock - the history  pop(p - c); pop(1); pause(p); pop(n - (p - c))  with the one sample of the second request dropped:
+    the trial is set up and notified, then cancelled at its own onset ('removed', counter restored, its delay dropped,
+    clock back at p), the rest of the request is silence.  (NOT pop(p - c); pause(p); pop(n - (p - c)): there the trial is
+    never set up, so its added/removed pair is missing and neither its delay nor its random draw is consumed.)
+    A re-entrant q.pause() without a time holds the notified trial (it plays after resume, late against its notified t0);
+    no history of plain calls produces that notification, so the split stops before such a request.
+
+    Returns (S, groups, complete): S = the split case (ops up to the first request that cannot be expressed), groups =
+    per op of R covered by S the list of indices of S's ops standing for it, complete = every op of R is covered."""
+    tr = run_case(case)
+    ops, groups = [], []
+    complete = True
+    for j, (op, st) in enumerate(zip(case['ops'], tr.steps)):
+        evs = st.get('re') or []
+        if st.get('status') != 'ok' and evs:
+            complete = False
+            break
+        if not evs:
+            groups.append([len(ops)])
+            ops.append(op)
+            continue
+        ev = evs[0]
+        if len(evs) > 1 or ev['how'] != 'pt' or ev['status'] != 'ok' or op[0] != 'pop':
+            complete = False
+            break
+        a = ev['pos'] - st['c0']
+        g = []
+        for o in ([['pop', a]] if a > 0 else []) + [['pop', 1], ['pause', ev['pos']], ['pop', op[1] - a]]:
+            g.append(len(ops))
+            ops.append(o)
+        groups.append(g)
+    S = {k: v for k, v in case.items() if k != 'reent'}
+    S['ops'] = ops
+    return S, groups, complete
+
+
+def reentrant_lines(case):
+    """(model lines, impl lines) of a case with re-entrant pauses: both are those of the split history S (model = Lean
+    driver on S, impl = real queue on S); the real queue's run of the re-entrant history itself is compared with the
+    merged run of S here, a difference is flagged on the impl line (`!reentrant-differs`)."""
+    S, groups, complete = reentrant_split(case)
+    ml = model_lines(S)
+    il = impl_lines(S)
+    R, T = run_case(case), run_case(S)
+    off = len(il) - len(S['ops'])              # header lines ('ok' + one per early stimulus)
+    fields = ('status', 'cells', 'add', 'rm', 'ts', 'ts_exact', 'empty', 'rem', 'ct', 'cr', 'reqs')
+    for j, g in enumerate(groups):
+        r = R.steps[j]
+        parts = [T.steps[i] for i in g]
+        if any(p_.get('status') != 'ok' for p_ in parts) or r.get('status') != 'ok':
+            same = len(g) == 1 and {k: r.get(k) for k in fields} == {k: parts[0].get(k) for k in fields}
+        elif len(g) == 1:
+            same = all(r.get(k) == parts[0].get(k) for k in fields)
+        else:
+            outer = [p_ for p_ in parts if p_['op'][0] == 'pop']
+            drop = outer[-2]                   # the one-sample request that sets the trial up
+            merged_cells = [c for p_ in outer if p_ is not drop for c in p_['cells']]
+            merged_add = [a for p_ in parts for a in p_['add']]
+            merged_rm = [u for p_ in parts for u in p_['rm']]
+            last = parts[-1]
+            same = (r['cells'] == merged_cells and list(r['add']) == merged_add and list(r['rm']) == merged_rm
+                    and len(drop['cells']) == 1
+                    and all(r.get(k) == last.get(k) for k in ('ts', 'ts_exact', 'empty', 'rem', 'ct', 'cr', 'reqs'))
+                    and r['n_empty'] == sum(p_['n_empty'] for p_ in parts))
+        if not same:
+            il[off + g[-1]] += ' !reentrant-differs'
+    return ml, il
 
 
 # --------------------------------------------------------------------------
@@ -780,6 +959,8 @@ def spell(rng, c, finite_delays=False, p=0.6):
         c['shadow'] = rng.choice(['same', 'diff'])
     if rng.random() < 0.3:
         c['meddle'] = 1
+    if rng.random() < 0.15:
+        c['share'] = 'scratch'     # one scratch object per kind of source, re-filled before each append()
     same_trials = rng.random() < 0.3
     for i, st in enumerate(c['stims']):
         if same_trials:
@@ -806,12 +987,22 @@ def spell(rng, c, finite_delays=False, p=0.6):
     return c
 
 
-CASE_SPELLINGS = ('ctor', 'fsrep', 't0rep', 'build', 'clone', 'shadow', 'meddle', 'nrep', 'trep')
-STIM_SPELLINGS = ('trep', 'dform', 'meta', 'dtype', 'declare', 'xdur')
+CASE_SPELLINGS = ('ctor', 'fsrep', 't0rep', 'build', 'clone', 'shadow', 'meddle', 'nrep', 'trep', 'share')
+STIM_SPELLINGS = ('trep', 'dform', 'meta', 'dtype', 'declare', 'xdur', 'same_as')
 
 
 def drop_stim(c, i):
     """The case without stimulus i (late appends of it dropped, later ones renumbered)."""
+    if any(st.get('same_as') is not None for st in c['stims']):
+        stims = []
+        for j, st in enumerate(c['stims']):
+            a = st.get('same_as')
+            if a is not None:
+                st = {k: v for k, v in st.items() if k != 'same_as'}
+                if a != i and j != i:
+                    st['same_as'] = a - (a > i)
+            stims.append(st)
+        c = dict(c, stims=stims)
     ops = []
     for op in c['ops']:
         if op[0] == 'append':
@@ -832,6 +1023,46 @@ def unspell_candidates(c):
             if st.get(f):
                 s2 = {k: v for k, v in st.items() if k != f}
                 yield dict(c, stims=c['stims'][:i] + [s2] + c['stims'][i + 1:])
+
+
+def shared_stims(rng, n, max_len=9, max_trials=3):
+    """Stimuli a caller would build in one scratch object: groups of equal shape (arrays of one length and dtype,
+    enveloped tones of one duration), FixedWaveform factories of any length; sometimes the unchanged object of an
+    earlier stimulus appended once more (same_as)."""
+    out = []
+    L = rng.randint(1, max_len)
+    frac = rng.choice([0, 0, 0.25, -0.4])
+    dt = rng.choice([None, None, 'f4', 'i4'])
+    for i in range(n):
+        src = rng.choice(['arr', 'arr', 'fixed', 'cos2'])
+        nd = rng.choice([1, 1, 2])
+        st = {'src': src, 'len': L if src != 'fixed' or rng.random() < 0.5 else rng.randint(1, max_len),
+              'trials': rng.randint(1, max_trials),
+              'delays': [rng.choice([0, 0, 0.5, 1, 2, 3.6]) for _ in range(nd)]}
+        if src == 'cos2':
+            st['frac'] = frac
+        elif dt:
+            st['dtype'] = dt
+        if i and rng.random() < 0.2:
+            j = rng.randrange(i)
+            st = dict(out[j], trials=st['trials'], delays=st['delays'], same_as=_alias(out, j))
+        out.append(st)
+    return out
+
+
+def waveform_failure(tr, N):
+    """What each notified trial put on the output: the waveform queued under ITS key, at the notified sample (as far as
+    the N samples fetched reach).  For histories without pauses."""
+    cells = flat_cells(tr)
+    for (key, k, *_rest) in tr.added:
+        for i in range(tr.lens[key]):
+            if k + i >= min(N, len(cells)):
+                break
+            want = ('Z',) if i in tr.zero_at[key] else ('W', key, i)
+            if k + i < 0 or cells[k + i] != want:
+                return (f'trial of stimulus {key} notified at sample {k}: output[{k + i}] is {cells[k + i]}, sample {i} of the '
+                        f'waveform queued under that key expected')
+    return None
 
 
 def policy_name(case):
